@@ -33,6 +33,9 @@ def run_batch(pid, scenarios, bindir, prog, trace_module, trace_cfg, prelude=(),
         b, sp, tp, scs = job
         t0 = time.time()
         rc = vlib.run_harness(bindir, prog, sp, tp, timeout=max(120, sum(s.budget for s in scs)))
+        if rc != 0:
+            # the run died outside a scenario (while preparing shared material): repeat with every set-up line probed in a child first
+            rc = vlib.run_harness(bindir, prog, sp, tp, timeout=2 * max(120, sum(s.budget for s in scs)), env={'VERIF_PRELUDE_PROBE': '1'})
         t1 = time.time()
         r = vlib.validate_trace(trace_module, trace_cfg, tp, timeout=tlc_timeout, xmx=xmx)
         if r['error']:
@@ -118,6 +121,7 @@ def finish(pid, tier, seed, level, scenarios, res, rules_owned, t0, rule_desc, n
             s = byname.get(v.get('scn'))
             p = os.path.join(vlib.REPLAY, f'{pid}-{nviol}.txt')
             with open(p, 'w') as f:
+                if s is None and v.get('script') and os.path.exists(v['script']): f.write(open(v['script']).read())
                 if s: f.write('\n'.join(getattr(s, 'prelude', [])) + ('\n' if getattr(s, 'prelude', None) else '') + s.text() + '\n')
                 f.write('# violated: ' + json.dumps({k: v[k] for k in v if k not in ('trace', 'script')})[:3000] + '\n')
             print(f"VIOLATION property={pid} replay={p}")
